@@ -175,7 +175,11 @@ def hostile_sctp_chunk(rng, template=None, base_tsn=None):
         return t, raw_chunk(rng.choice([15, 63, 64, 127, 128, 191, 193, 255]), rng.randrange(256), rng.randbytes(rng.choice([0, 1, 8, 100])))
     if t == "declared-length":
         body = rng.randbytes(rng.choice([0, 4, 12, 20]))
-        return t, raw_chunk(rng.choice([0, 1, 3, 6, 130, 192]), 0, body, declared=rng.choice([0, 1, 3, 4, len(body) + 3, len(body) + 5, len(body) + 400, 0xFFFF]), pad=rng.random() < 0.5)
+        ctype = rng.choice([0, 1, 3, 6, 130, 192])
+        # when the parser accepts such a chunk, a DATA / SACK / FORWARD-TSN / RE-CONFIG with random contents is a lie about
+        # sequence state like the templates 'data', 'sack-*', 'fwd', 'reconfig': not harmless for the peer's own data
+        name = t if ctype == 1 else "declared-length-seq"
+        return name, raw_chunk(ctype, 0, body, declared=rng.choice([0, 1, 3, 4, len(body) + 3, len(body) + 5, len(body) + 400, 0xFFFF]), pad=rng.random() < 0.5)
     if t == "shutdown":
         return t, raw_chunk(rng.choice([7, 8, 14]), rng.randrange(2), rng.randbytes(rng.choice([0, 3, 4, 8])))
     if t == "cookie":
